@@ -40,3 +40,12 @@ Theorem C17_min_forgets : forall (F : Type) (O : Ops F) (P : F -> Prop) (p : N) 
   last (min_outs O (mkMin p 0 0 (repeat (inf O) (N.to_nat p))) h1) (inf O) =
   last (min_outs O (mkMin p 0 0 (repeat (inf O) (N.to_nat p))) h2) (inf O).
 Proof. exact (@min_forgets). Qed.
+
+(* binary64, inputs free of NaN and -0.0: bit-identical *)
+From TA Require Import FloatInst Proofs.FloatOrder.
+Theorem C17_min_forgets_binary64 : forall (p : N) (h1 h2 : list PrimFloat.float),
+  0 < p -> p <= ALLOC_MAX -> Forall okF h1 -> Forall okF h2 -> h1 <> [] -> h2 <> [] ->
+  lastn (N.to_nat p) h1 = lastn (N.to_nat p) h2 ->
+  last (min_outs FOps (mkMin p 0 0 (repeat (inf FOps) (N.to_nat p))) h1) (inf FOps) =
+  last (min_outs FOps (mkMin p 0 0 (repeat (inf FOps) (N.to_nat p))) h2) (inf FOps).
+Proof. intros p h1 h2. exact (min_forgets PrimFloat.float FOps okF p h1 h2 float_order_min). Qed.
